@@ -20,12 +20,13 @@ const std::vector<Sample>& witnesses() {
 	}
 	return w;
 }
+size_t xSeeds() { return g_cfg.tier ? 6 : 1; }   // synthesised files per (type, extra Fallout 3 range version)
 Layout layout() {
 	Plan p = plan();
 	Layout l;
 	l.nReal = realSamples().size();
 	l.nMut = l.nReal * (size_t)p.mutPerSample;
-	l.nSyn = typeDB().names.size() * (size_t)NVERS * (size_t)p.synSeeds;
+	l.nSyn = typeDB().names.size() * ((size_t)NVERS * (size_t)p.synSeeds + (size_t)NXVERS * xSeeds());
 	l.nApi = (size_t)p.apiModels;
 	l.nWit = witnesses().size();
 	l.nEdit = (size_t)p.edited;
@@ -131,9 +132,11 @@ void run(size_t idx) {
 	idx -= l.nMut;
 	if (idx < l.nSyn) {
 		const TypeDB& db = typeDB();
-		size_t per = db.names.size() * (size_t)NVERS;
-		size_t it = idx / per, rest = idx % per;
-		const VerInfo& v = VERS[rest / db.names.size()];
+		size_t per = db.names.size() * (size_t)NVERS, nMain = per * (size_t)plan().synSeeds;
+		size_t it, rest;
+		if (idx < nMain) { it = idx / per; rest = idx % per; }
+		else { size_t perX = db.names.size() * (size_t)NXVERS; it = (idx - nMain) / perX; rest = per + (idx - nMain) % perX; }
+		const VerInfo& v = verAt(rest / db.names.size());
 		const std::string& name = db.names[rest % db.names.size()];
 		uint64_t seed = mix(mix(g_cfg.seed, hashStr(name)), (rest / db.names.size()) * 1000 + it);
 		SynthOpts so;
